@@ -59,6 +59,7 @@ type wConn struct {
 	raw       net.Conn
 
 	mu       sync.Mutex
+	cond     *sync.Cond // signalled whenever the inbox grows or the reader stops
 	inbox    []Rx
 	rh       *hws.RealtimeHandler
 	returned bool // websocket.Handle returned on the server side
@@ -67,6 +68,7 @@ type wConn struct {
 	resume   chan struct{}
 	stalled  bool // client stopped reading
 	closed   bool
+	readerGone bool
 }
 
 type WOpts struct {
@@ -74,6 +76,7 @@ type WOpts struct {
 	SyncClock     time.Duration
 	SummaryEvery  time.Duration
 	PublicEndoint string
+	Real          bool // real threads, real time: no synctest bubble
 }
 
 type WWorld struct {
@@ -175,6 +178,14 @@ func (w *WWorld) serve(conn *websocket.Conn) {
 	hws.Handle(w.ctx, conn, h)
 }
 
+// wait lets everything settle: exact inside a bubble; a no-op in real-time
+// runs, where callers synchronise on what they receive.
+func (w *WWorld) wait() {
+	if !w.opts.Real {
+		synctest.Wait()
+	}
+}
+
 func (w *WWorld) Name() string                                { return "W" }
 func (w *WWorld) Store() *models.SessionStore                 { return w.store }
 func (w *WWorld) ReceiptQueue() chan ncsclient.ReceiptPayload { return w.receipts }
@@ -226,6 +237,7 @@ func (w *WWorld) Ended(slot int) bool {
 func (w *WWorld) Connect(slot int) {
 	w.gen[slot]++
 	c := &wConn{slot: slot, gen: w.gen[slot], clientID: fmt.Sprintf("client-%d-%d", slot, w.gen[slot]), readDone: make(chan struct{}), resume: make(chan struct{})}
+	c.cond = sync.NewCond(&c.mu)
 	cli, srv := net.Pipe()
 	c.raw = cli
 	w.mu.Lock()
@@ -246,11 +258,17 @@ func (w *WWorld) Connect(slot int) {
 	w.conns[slot] = c
 	w.all = append(w.all, c)
 	go c.readLoop()
-	synctest.Wait()
+	w.wait()
 }
 
 func (c *wConn) readLoop() {
 	defer close(c.readDone)
+	defer func() {
+		c.mu.Lock()
+		c.readerGone = true
+		c.cond.Broadcast()
+		c.mu.Unlock()
+	}()
 	for {
 		c.mu.Lock()
 		st := c.stalled
@@ -270,6 +288,7 @@ func (c *wConn) readLoop() {
 		c.mu.Lock()
 		rx.Seq = len(c.inbox)
 		c.inbox = append(c.inbox, rx)
+		c.cond.Broadcast()
 		c.mu.Unlock()
 	}
 }
@@ -289,7 +308,7 @@ func (w *WWorld) SendBytes(slot int, b []byte) {
 	}
 	// the write fails when the server has already closed the connection
 	_ = websocket.Message.Send(c.ws, b)
-	synctest.Wait()
+	w.wait()
 	w.note(c)
 }
 
@@ -309,7 +328,7 @@ func (w *WWorld) SendText(slot int, s string) {
 		return
 	}
 	_ = websocket.Message.Send(c.ws, s)
-	synctest.Wait()
+	w.wait()
 }
 
 // WriteRaw writes raw bytes below the WebSocket framing layer.
@@ -321,7 +340,7 @@ func (w *WWorld) WriteRaw(slot int, b []byte) {
 	c.raw.SetWriteDeadline(time.Now().Add(time.Second))
 	c.raw.Write(b)
 	c.raw.SetWriteDeadline(time.Time{})
-	synctest.Wait()
+	w.wait()
 }
 
 func (w *WWorld) note(c *wConn) {
@@ -344,12 +363,12 @@ func (w *WWorld) Close(slot int) {
 	}
 	c.closed = true
 	c.ws.Close()
-	synctest.Wait()
+	w.wait()
 }
 
 func (w *WWorld) Advance(d time.Duration) {
 	time.Sleep(d)
-	synctest.Wait()
+	w.wait()
 }
 
 func (w *WWorld) Shutdown() {
@@ -365,11 +384,11 @@ func (w *WWorld) Shutdown() {
 			c.ws.Close()
 		}
 	}
-	synctest.Wait()
+	w.wait()
 	w.cancel()
 	w.srv.Close()
 	w.ln.Close()
-	synctest.Wait()
+	w.wait()
 	w.mu.Lock()
 	for s := range w.sessions {
 		s.Close()
@@ -381,7 +400,7 @@ func (w *WWorld) Shutdown() {
 	for s := range w.sessions {
 		s.Close()
 	}
-	synctest.Wait()
+	w.wait()
 }
 
 // Leaks: after every client has gone, every handler must have returned, no
@@ -389,7 +408,7 @@ func (w *WWorld) Shutdown() {
 // gauge must be back at its previous value.
 func (w *WWorld) Leaks() []string {
 	var out []string
-	synctest.Wait()
+	w.wait()
 	for _, c := range w.all {
 		c.mu.Lock()
 		if c.entered && !c.returned {
@@ -408,7 +427,7 @@ func (w *WWorld) Leaks() []string {
 	return out
 }
 
-func (w *WWorld) Settle() { synctest.Wait() }
+func (w *WWorld) Settle() { w.wait() }
 
 // Stall: the client stops reading (after at most one message that its reader
 // was already waiting for).
@@ -428,7 +447,7 @@ func (w *WWorld) Abort(slot int) {
 	}
 	c.closed = true
 	c.raw.Close()
-	synctest.Wait()
+	w.wait()
 }
 
 // wsFrame builds one masked binary client frame.
@@ -470,5 +489,5 @@ func (w *WWorld) SendBurst(slot int, frames [][]byte) {
 		c.raw.Write(buf)
 		c.raw.SetWriteDeadline(time.Time{})
 	}()
-	synctest.Wait()
+	w.wait()
 }
